@@ -69,16 +69,27 @@ Fixpoint live_entries (seen : list string) (c : dirc) : dirc :=      (* first bi
   | [] => []
   | (n, f) :: r => if mem_s n seen then live_entries seen r else (n, f) :: live_entries (n :: seen) r
   end.
-Definition dir_devs (fs : fsys) (d : string) : list string :=
-  flat_map (fun nf => match snd nf with Good ds => ds | Bad => [] end) (live_entries [] (spec_entries fs d)).
+(* the devices a directory defines, each with its defining file *)
+Definition dir_defs (fs : fsys) (d : string) : list (string * string) :=
+  flat_map (fun nf => match snd nf with Good ds => map (fun q => (q, d ++ "/" ++ fst nf)) ds | Bad => [] end)
+           (live_entries [] (spec_entries fs d)).
+(* precedence: the definition found in the directory listed last wins (the generated contents have no two files of one
+   directory defining the same device: same-directory conflicts are C01's subject) *)
+Fixpoint resolve_prio (l : list (string * string)) : list (string * string) :=
+  match l with
+  | [] => []
+  | (q, p) :: r => if mem_s q (map fst r) then resolve_prio r else (q, p) :: resolve_prio r
+  end.
+(* a device as a query shows it: qualified name @ defining file (ListDevices + GetDevice(..).GetSpec().GetPath()) *)
+Definition show_def (x : string * string) : string := fst x ++ "@" ++ snd x.
 Definition dir_errs (fs : fsys) (d : string) : list string :=
   flat_map (fun nf => match snd nf with Good _ => [] | Bad => [d ++ "/" ++ fst nf] end) (live_entries [] (spec_entries fs d)).
 Definition norm_set (l : list string) : list string := sort_strings (dedup_s l).
 
-Definition answer := (list string * list string)%type.    (* ListDevices, key set of the per-file errors; both sorted *)
+Definition answer := (list string * list string)%type.    (* the devices (name@defining file), key set of the per-file errors; both sorted *)
 Definition empty_answer : answer := ([], []).
 Definition view (dirs : list string) (fs : fsys) : answer :=
-  (norm_set (flat_map (dir_devs fs) dirs), norm_set (flat_map (dir_errs fs) dirs)).
+  (norm_set (map show_def (resolve_prio (flat_map (dir_defs fs) dirs))), norm_set (flat_map (dir_errs fs) dirs)).
 
 (* ---------- the cache object ---------- *)
 Inductive copt := WithSpecDirs (ds : list string) | WithAutoRefresh (b : bool).
